@@ -265,8 +265,12 @@ def main(argv: list[str] | None = None) -> int:
     ap.add_argument("--shard")  # i/N (internal)
     ap.add_argument("--partial-out")
     ap.add_argument("--no-evidence", action="store_true")
-    ap.add_argument("--case-timeout", type=float, default=120.0)
+    ap.add_argument("--case-timeout", type=float, default=None)
     args = ap.parse_args(argv)
+    if args.case_timeout is None:
+        # wall-clock guard per case (a harness hang, never a verdict): thorough runs load all 16 cores, and a busy machine
+        # must not turn a slow case into a failed run
+        args.case_timeout = 120.0 if args.tier == "quick" else 400.0
 
     seed = int(os.environ.get("VERIF_SEED") or "1")
     t0 = time.monotonic()
